@@ -62,6 +62,8 @@ Effect(m, o) ==
           [] o.eff = "concat_other" -> [m EXCEPT !.items = m.items \o o.a]
           [] o.eff = "chan"     -> [m EXCEPT !.C = o.a[1]]
           [] o.eff = "chan_mul" -> [m EXCEPT !.C = m.C * o.a[1]]
+          \* ONE indexing expression that selects items AND channels: a = <<new C, idx...>>
+          [] o.eff = "selchan"  -> [m EXCEPT !.items = Sel(m.items, Tail(o.a)), !.C = o.a[1]]
           [] o.eff = "mixed"    -> [m EXCEPT !.items = IF Len(m.items) = 1 THEN m.items
                                                        ELSE E([k \in 1..(IF o.a[1] = 0 THEN Len(m.items) ELSE o.a[1]) |-> 0])]
           [] o.eff = "swap_nc"  ->  \* exchange batch and channel dimension: entry i holds channel i of every item
@@ -74,11 +76,11 @@ Effect(m, o) ==
           [] o.eff = "chan"     -> [m EXCEPT !.C = o.a[1]]
           [] o.eff = "chan_mul" -> [m EXCEPT !.C = m.C * o.a[1]]
           [] o.eff \in {"spatial", "other", "mixed", "select", "item", "reverse", "roll", "tile",
-                        "concat_self", "concat_other", "swap_nc"} -> [m EXCEPT !.layout = "X"]
+                        "concat_self", "concat_other", "swap_nc", "selchan"} -> [m EXCEPT !.layout = "X"]
 
 \* The index-based operations of the alphabet are defined for batches of exactly 3 items.
 OpEnabled(m, o) ==
-    /\ (m.layout = "NCS" /\ o.eff \in {"select", "item"}) => Len(m.items) = 3
+    /\ (m.layout = "NCS" /\ o.eff \in {"select", "item", "selchan"}) => Len(m.items) = 3
     /\ (m.layout = "NCS" /\ o.eff \in {"reverse", "roll", "tile", "mixed"}) => Len(m.items) >= 1
 
 \* the acceptable answers for a meaning: Plain always; typed answers only if some grid describes the data
